@@ -30,7 +30,7 @@ func genC10(seed uint64) *Scenario {
 	} else {
 		// several rule-breaking edits per document: with continue-on-errors every rule runs, so one validation exercises
 		// many rules (and several offenders of one rule are what order dependence needs)
-		nedits := pick(r, []int{0, 1, 2, 2, 3, 4, 6, 8})
+		nedits := pick(r, []int{0, 1, 2, 3, 4, 6, 8, 10, 12})
 		if r.Chance(250) {
 			b, w := GenSpecTwin(r, nedits)
 			doc = js(b)
@@ -55,13 +55,14 @@ func genC10(seed uint64) *Scenario {
 	reuseSV := r.Chance(300)                   // swarm: one long-lived SpecValidator object serves the validations of the run / a new one each time
 	floodPM := pick(r, []int{0, 0, 0, 0, 150}) // swarm: some runs compile hundreds of distinct patterns between validations
 	nflood := 0
+	otherDocsPM := pick(r, []int{250, 250, 250, 700}) // swarm: how often the churn validates another document
 	churn := func() {
 		if r.Chance(floodPM) {
 			nflood++
 			add(Op{Kind: KFlood, Str: fmt.Sprintf("fl%d_", nflood), LL: pick(r, []int{70, 140, 300})})
 		}
 		for i := 0; i < r.Intn(3); i++ {
-			if r.Chance(250) {
+			if r.Chance(otherDocsPM) {
 				// another document (same definition / operation names, other contents) validated in between
 				od, _ := GenSpec(r, pick(r, []int{0, 1, 2, 4}))
 				add(Op{Kind: KSpec, Doc: js(od), COE: bp(r.Chance(500)), OrderSeed: r.U64() | 1, SharedMeta: sharedMeta, ReuseSV: reuseSV, Role: "other-doc"})
@@ -79,7 +80,7 @@ func genC10(seed uint64) *Scenario {
 		nval = pick(r, []int{3, 4, 6, 8, 10, 14})
 	}
 	for i := 0; i < nval; i++ {
-		if r.Chance(300) || floodPM > 0 {
+		if r.Chance(300) || floodPM > 0 || otherDocsPM > 500 {
 			churn()
 		}
 		if r.Chance(120) {
@@ -433,7 +434,7 @@ func runC10(sc *Scenario, keepLog bool) *RunReport {
 					_, noNewWarning := subset(so.warnings, f.out.warnings)
 					if noNewWarning {
 						rep.probe("twin-without-extra-warning", 1)
-					} else if f.out.valid != so.valid || strings.Join(f.out.errors, "\n") != strings.Join(so.errors, "\n") {
+					} else if f.out.valid != so.valid || twinErrKey(f.out.errors) != twinErrKey(so.errors) {
 						viol(i, op, "warnings-change-errors", mismatchSpec(specOutcome{valid: f.out.valid, errors: f.out.errors}, specOutcome{valid: so.valid, errors: so.errors}), f.out.key(), so.key(),
 							fmt.Sprintf("this document is the document of validation #%d plus conditions that only warrant warnings, yet its verdict or its errors differ (continue-on-errors=%v)", f.op, eff))
 						break
@@ -647,6 +648,20 @@ func templateIn(msg string, set []string) bool {
 	return false
 }
 
+var ptrDetailRe = regexp.MustCompile(`: (nil value has no field|object has no key) "[^"]*": JSON pointer error`)
+
+// twinErrKey: the error set of a document, for comparison with its twin. The low-level detail of an unresolvable
+// reference ("nil value has no field" when the whole section is missing, "object has no key" when the section exists
+// without that entry) legitimately changes when the twin adds an entry to such a section: it is blanked.
+func twinErrKey(errs []string) string {
+	out := make([]string, 0, len(errs))
+	for _, e := range errs {
+		out = append(out, ptrDetailRe.ReplaceAllString(e, ": <pointer error>"))
+	}
+	sort.Strings(out)
+	return strings.Join(dedupSorted(out), "\n")
+}
+
 // msgTemplate: a message with its quoted names, lists and numbers blanked. What follows "First found:" is the text of
 // whichever low-level error came first ("object has no key _" / "nil value has no field _" ...): it belongs to the
 // variable part of that message, not to its template.
@@ -662,7 +677,7 @@ func init() {
 		ID: "C10", Level: "exploration",
 		Gen:       func(seed uint64, tier string, idx int) *Scenario { return genC10(mixSeed(seed, uint64(idx))) },
 		Run:       runC10,
-		QuickRuns: 420, ThoroughS: 1500,
+		QuickRuns: 560, ThoroughS: 1500,
 		Rule: "one run = one document (generated mini specification with 0..8 rule-breaking edits out of 41 kinds, or a small repository fixture) validated 2..8 times - the same loaded document object or freshly loaded bytes, one Swagger meta-schema object for the run or each document's own - under different seeded map iteration orders (= Go's per-process randomisation, made replayable), " +
 			"from JSON, member-reordered JSON or YAML-converted bytes, with continue-on-errors false/true set per validator or through the package-level setter, after other validations (other documents included) and after a reset of all process-wide state, then once more in a fresh OS process; a quarter of the generated documents come with a twin carrying 1..3 extra warning-only conditions, validated under both settings; " +
 			"non-trivial = at least two whole-spec validations; distinct = distinct (document, option/serialisation sequence)",
